@@ -15,6 +15,7 @@ MODULES = {
     "ctor": "ctor",
     "c13": "c13",
     "part": "partition",
+    "xref": "xref",
     "c03": "c03",
     "native": "nativeob",
     "lean": "leanob",
